@@ -34,8 +34,8 @@ func zzTimeStamp(l string) CdrHdrTimeStamp {
 }
 
 var zzFilterLens = []int{0, 1, 3, 65485, 65486, 65535}
-var zzExtLens = []int{0, 2, 65535}
-var zzPayloadLens = []int{0, 1, 4, 65535}
+var zzExtLens = []int{0, 65535, 2}
+var zzPayloadLens = []int{0, 65535, 1, 4}
 
 func zzBlob(label string, n int) []byte {
 	if n > 64 {
@@ -113,7 +113,7 @@ func zzFile() CDRFile {
 
 // C14: Decoding(Encoding(f)) == f.
 //
-//gosx:property=C14 tier=quick shards=6 p.maxrec=2 p.maxrec.thorough=3
+//gosx:property=C14 tier=quick shards=6 p.maxrec=2 p.maxrec.thorough=3 p.extlens=2 p.extlens.thorough=3 p.payloadlens=2 p.payloadlens.thorough=4
 func ZZ_C14_RoundTrip() {
 	f := zzFile()
 	f.Encoding("/tmp/zz_c14.cdr")
@@ -253,7 +253,7 @@ func zzTSEq(a zzRefTS, b CdrHdrTimeStamp) bool {
 
 // C15: the bytes written follow the TS 32.297 layout.
 //
-//gosx:property=C15 tier=quick shards=6 p.maxrec=2 p.maxrec.thorough=3
+//gosx:property=C15 tier=quick shards=6 p.maxrec=2 p.maxrec.thorough=3 p.extlens=2 p.extlens.thorough=3 p.payloadlens=2 p.payloadlens.thorough=4
 func ZZ_C15_Layout() {
 	f := zzFile()
 	f.Encoding("/tmp/zz_c15.cdr")
